@@ -241,8 +241,48 @@ fn check_mixed_chroma<T: yuvxyb::Pixel>(acc: &mut Acc, idx: u64, m: yuvxyb::Matr
     acc.bucket("neutral samples among coloured neighbours decode to grey", neutral);
 }
 
+/// "Every matrix": the luma/chroma matrices outside the seven standard ones are rejected by the
+/// library today; where one of them (with some primaries) is accepted, neutral chroma must still
+/// decode to grey. (Identity is RGB itself, not a luma/chroma matrix: "neutral chroma" means nothing there.)
+fn check_other_matrices(acc: &mut Acc, base: u64) {
+    use yuvxyb::{MatrixCoefficients as MC, Rgb};
+    for m in [MC::BT2020ConstantLuminance, MC::ChromaticityDerivedNonConstantLuminance, MC::ChromaticityDerivedConstantLuminance, MC::ST2085, MC::ICtCp] {
+        for &p in SUPPORTED_PRIMARIES.iter() {
+            for (n, wide, full) in [(8u8, false, false), (10, true, true)] {
+                let ncodes = 1usize << n;
+                let ys: Vec<u16> = (0..ncodes).map(|v| v as u16).collect();
+                let mid = vec![(1u32 << (n - 1)) as u16; ncodes];
+                let cfg = cfg_full(n, full, (0, 0), m, TC::BT1886, p);
+                let case = || json!({"kind":"c16other","matrix":format!("{m:?}"),"primaries":format!("{p:?}"),"depth":n,"u16":wide,"full":full});
+                acc.states += 1;
+                acc.transitions += 1;
+                let r = guarded(|| if wide { Rgb::try_from(&yuv444_row::<u16>(&ys, &mid, &mid, cfg)) } else { Rgb::try_from(&yuv444_row::<u8>(&ys, &mid, &mid, cfg)) });
+                match r {
+                    Ok(Ok(rgb)) => {
+                        if let Some((i, px)) = rgb.data().iter().enumerate().find(|(_, px)| spread(**px) > 5e-7) {
+                            acc.violation(base, format!("grey-not-neutral matrix={m:?} primaries={p:?}"), format!("{m:?}/{p:?} depth {n}: Y={i}, U=V={}: decoded {} spread {:.3e} > 5e-7", mid[0], px3s(*px), spread(*px)), case());
+                            return;
+                        }
+                        acc.bucket("other luma/chroma matrices: accepted, neutral chroma decodes to grey", 1);
+                    }
+                    Ok(Err(_)) => acc.bucket("other luma/chroma matrices: rejected (nothing to check)", 1),
+                    Err(pn) => {
+                        acc.violation(base, format!("grey-decode-failed matrix={m:?} {}", panic_site(&pn)), pn, case());
+                        return;
+                    }
+                }
+            }
+        }
+    }
+}
+
 pub fn run(_tier: Tier) -> Report {
     let mut rep = Report::new("C16");
+    {
+        let mut acc = Acc::default();
+        check_other_matrices(&mut acc, 9u64 << 32);
+        rep.acc.merge(acc);
+    }
     {
         let mut jobs = vec![];
         for &m in STD_MATRICES.iter() {
@@ -298,6 +338,7 @@ pub fn replay(case: &Value) -> (bool, String) {
     let mut acc = Acc::default();
     match case["kind"].as_str().unwrap() {
         "c16yuv" => check_yuv_grey(&mut acc, &super::c01::Cfg::from_json(&case["cfg"]), 0),
+        "c16other" => check_other_matrices(&mut acc, 0),
         "c16curve" => check_curve(&mut acc, tc_from_name(case["tc"].as_str().unwrap()), &[f32::from_bits(case["x"].as_u64().unwrap() as u32)], 0),
         "c16mixed" => {
             let m = mc_from_name(case["matrix"].as_str().unwrap());
